@@ -367,7 +367,11 @@ class Rule(NamedBox):
 
     @staticmethod
     def param_repr(p):
-        if isinstance(p, int | float) or (isinstance(p, str) and p.isalnum()):
+        if isinstance(p, int | float) or (
+            isinstance(p, str)
+            and p.isidentifier()
+            and p not in {'None', 'True', 'False', 'true', 'false', 'null'}
+        ):
             return str(p)
         else:
             return repr(p)
